@@ -167,6 +167,11 @@ class World:
             def scanModules(self):
                 for i in range(2):
                     yield f'{self.name}_sub{i}', {'cls': M, 'description': 'scanned'}
+        class Mid(self.HasIO, M):
+            """a module that talks through a communicator and is itself the communicator of others (an io chain)"""
+            def communicate(self, cmd):
+                return self.io.communicate(cmd)
+        self.Mid = Mid
         self.M, self.NoPoll, self.Other, self.Typed, self.IOMod, self.User, self.Pin = M, NoPoll, Other, Typed, IOMod, User, Pin
 
     # ---------------------------------------------------------------- scenarios
@@ -213,6 +218,9 @@ class World:
             scen['shared_io'] = rng.choice([2, 3])
         elif q < 0.35:
             scen['pinata'] = True
+        if rng.random() < 0.2:
+            scen['io_chain'] = {'leaves': rng.choice([1, 2]), 'write': rng.random() < 0.5,
+                                'order': [[rng.randrange(4), rng.random()] for _ in range(4)]}
         if rng.random() < 0.3:
             # shut the node down while a short poll (0.3 s, shorter than the time shutdown waits for the poll threads) is in flight
             for m in mods:
@@ -255,6 +263,33 @@ class World:
                             'uri': 'fake://shared'}
         if scen.get('pinata'):
             cfg['pin'] = {'cls': self.Pin, 'description': 'scanner'}
+        if scen.get('io_chain'):
+            # leaf(s) -> mid -> root: mid is polled through root's thread and owns the poll thread of its own users
+            chain = {'croot': {'cls': self.IOMod, 'description': 'communicator at the end of an io chain'},
+                     'cmid': {'cls': type('MidC', (self.Mid,), {'opt': {'use': 'never'}, '__module__': __name__}), 'description': 'middle of an io chain', 'io': 'croot'}}
+            for i in range(scen['io_chain']['leaves']):
+                chain[f'cleaf{i}'] = {'cls': type(f'LeafC{i}', (self.User,), {'opt': {'use': 'never'}, '__module__': __name__}), 'description': 'end user of an io chain',
+                                      'io': 'cmid', **({'x': {'value': 2.5}} if scen['io_chain'].get('write') and i == 0 else {})}
+            order = scen['io_chain']['order']
+            names = sorted(chain)
+            items = list(cfg.items())
+            for k, name in enumerate(order):
+                pos = min(len(items), int(name[1] * (len(items) + 1)))
+                items.insert(pos, (names[name[0] % len(names)], None))
+            # (declaration order: the chain modules are spread over the configuration in the drawn order)
+            seen = set()
+            cfg2 = {}
+            for n_, c_ in items:
+                if c_ is None:
+                    if n_ in seen:
+                        continue
+                    seen.add(n_)
+                    cfg2[n_] = chain[n_]
+                else:
+                    cfg2[n_] = c_
+            for n_ in names:
+                cfg2.setdefault(n_, chain[n_])
+            cfg = cfg2
         return cfg
 
     # ---------------------------------------------------------------- model
@@ -354,6 +389,9 @@ class World:
         if s.status in ('watchdog', 'budget'):
             r.inconclusive.append(f'scheduler run ended with {s.status}')
             return
+        if s.escaped:
+            r.violation('C15/exception-escapes-thread', f'{s.escaped[0][:2]}'[:300], dict(case, traceback=s.escaped[0][2]))
+            return
         exp, reason = self.expectation(scen)
         edges = sum(1 for m in scen['mods'] for sl in ('a1', 'a2') if m.get(sl))
         r.case((scen['kind'], tuple((m['name'], m.get('a1'), m.get('a2'), m.get('use')) for m in scen['mods']),
@@ -414,6 +452,15 @@ class World:
                 if len(w) != 1 or w[0] > (p[0] if p else 10 ** 9) or mine[w[0]][4] != m['x']:
                     r.violation('C15/configured-write-order', f'{m["name"]}: writes at {w}, first poll event at {p[:1]}', case)
                     return
+        # ---- io chains: every module of the chain is polled (by the thread of the communicator it talks through)
+        if scen.get('io_chain'):
+            r.count('io_chain_nodes')
+            for name in names:
+                if name in ('cmid',) or name.startswith('cleaf'):
+                    n = sum(1 for e in LOG if e[2] == name and e[3] == 'doPoll')
+                    if n < 2:
+                        r.violation('C15/io-chain-module-not-polled', f'{name} was polled {n}x in the 12 s between ready and shutdown', dict(case, module=name))
+                        return
         # ---- ready only after every poll thread finished its first round or the start time-out elapsed
         r.count('ready_time_checked')
         t0, t_ready = info['t0'], info['t_ready']
